@@ -303,6 +303,18 @@ pub fn run_isolated(prop: &str, case: &Value, timeout_s: u64, timeout_is_violati
     let mut rounds = 0;
     loop {
         let mut o = run_isolated_once(prop, &case, timeout_s, timeout_is_violation);
+        // A time-out is a verdict about the case only if it is not a verdict about the machine: a
+        // case that ran out of time is run once more, alone in its process as before, with four
+        // times the limit (at least 120 s). Only if that run does not come back either is the
+        // hang reported; otherwise the slow run's own outcome counts.
+        if timeout_is_violation && o.violation.as_ref().map_or(false, |v| v.fingerprint.starts_with("hang:")) {
+            let o2 = run_isolated_once(prop, &case, (timeout_s * 4).max(120), timeout_is_violation);
+            let still = o2.violation.as_ref().map_or(false, |v| v.fingerprint.starts_with("hang:"));
+            o = o2;
+            if !still {
+                o.goals.push("time-out-not-confirmed-by-a-run-with-4x-the-limit");
+            }
+        }
         rounds += 1;
         let resume = o
             .violation
